@@ -84,8 +84,29 @@ def _odictify(v):
     return v
 
 
+def _npnum(v):
+    """numbers as a numerical programme has them: numpy scalars (np.int64 from arange, np.float32 where exact)"""
+    if isinstance(v, dict):
+        return {k: _npnum(x) for k, x in v.items()}
+    if isinstance(v, list):
+        return [_npnum(x) for x in v]
+    if isinstance(v, bool) or v is None or isinstance(v, str):
+        return v
+    if isinstance(v, int):
+        return np.int64(v) if abs(v) < 2 ** 62 else v
+    if isinstance(v, float):
+        with np.errstate(all="ignore"):
+            f = np.float32(v)
+        return f if (np.isfinite(v) and float(f) == v) else np.float64(v)
+    if isinstance(v, complex):
+        return np.complex128(v)
+    return v
+
+
 def build_value(r):
     v = dec(r["v"])
+    if r.get("npnum"):
+        v = _npnum(v)
     if r.get("odict"):
         v = _odictify(v)
     for src, dst in r.get("alias", []):
